@@ -6,6 +6,9 @@ Requests:
       stream continues with the follow-up list-offsets frame.  `next` = outcome of a list-offsets operation afterwards.
   `c2 <topic hex> <A>:<ver>:<off>:<hwm> <bodyA hex> <B>:… <bodyB hex> <k> => <resA> <resB>`   two callers with both requests
       in flight on ONE Conn, the response stream lost after k bytes: nobody may hang (read lock released on every exit).
+  `lo <cut timestamp|none> <true first> <true last> <frame len> <k> => <call> <first> <last> <error code>`   one
+      Client.ListOffsets call split into three sub-requests, one sub-response cut: expected value from C19's
+      Split/Merge/Client model; monitor: error, or true values.
   `rr <api key> <ver> <frame len> <k> <reader> => <ok <consumed>|err|panic>`
       model: protocol.ReadResponse under its contract (Props/C17 `Decoder`): error on every strict prefix, on the full
       frame ok having consumed exactly the frame.
@@ -20,6 +23,7 @@ of the records sent.
 -/
 import Oracle.ConnCommon
 import KafkaVerif.Model.TransportConnC17
+import KafkaVerif.Model.ListOffsets
 
 namespace KV.OracleC17
 open KV KV.Reader KV.ConnOps KV.OracleConn
@@ -98,6 +102,23 @@ def firstExpected (scenario : String) : String :=
   else if scenario.startsWith "writer.WriteMessages" then "ok"     -- the Writer retries on a new connection
   else "err"
 
+/-! split ListOffsets with one sub-response lost: expected result from the C19 builder's model of
+(*Request).Split / (*Response).Merge / Client.ListOffsets (Model/ListOffsets.lean; Props/C19 `entries_exact`,
+`failure_isolated`): the lost part contributes the UNKNOWN placeholder (error −1), the others their values. -/
+def modelSplitListOffsets (cutTs : Option Int) (first last : Int) : String :=
+  let req : List (String × List (Int × Int)) := [("t", [(0, -2), (0, -1), (0, 1234)])]
+  let answer (ts off : Int) : ListOffsets.Result :=
+    if cutTs == some ts then .err "unexpected EOF" else .ok ⟨0, [("t", [⟨0, 0, -1, off, 0⟩])]⟩
+  let r := ListOffsets.clientRequest 0 req
+  match ListOffsets.merge (ListOffsets.split r) [answer (-2) first, answer (-1) last, answer 1234 3] with
+  | .error _ => "err - - -"
+  | .ok resp =>
+    match ListOffsets.clientApply (ListOffsets.clientInit req) resp with
+    | some m => match m.lookup ("t", 0) with
+      | some p => s!"ok {p.first} {p.last} {p.error}"
+      | none => "ok - - missing"
+    | none => "panic"
+
 def step (line : String) : String :=
   match line.splitOn " => " with
   | [req, impl] =>
@@ -117,6 +138,17 @@ def step (line : String) : String :=
         | some m => s!"model={m} holds={if monitorTwo a b k impl then 1 else 0}"
         | none => "bad-op"
       | _, _, _, _ => "bad-args"
+    | ["lo", cts, fs, ls, _, _] =>
+      match fs.toInt?, ls.toInt? with
+      | some first, some last =>
+        let m := modelSplitListOffsets cts.toInt? first last
+        -- monitor: the call failed, or the partition carries an error, or both values are the true ones
+        let h := match words impl with
+          | ["err", _, _, _] => true
+          | ["ok", f, l, e] => e != "0" && e != "missing" || (f.toInt? == some first && l.toInt? == some last && e == "0")
+          | _ => false
+        s!"model={m} holds={if h then 1 else 0}"
+      | _, _ => "bad-args"
     | ["tp", sc, ls, ks] =>
       match ls.toNat?, ks.toNat? with
       | some len, some k =>
